@@ -17,7 +17,7 @@ BASELINE_OFF = ('cd /repo && env -u VERMOUTH_VERIF /venv/bin/python -m pytest -r
 
 
 TEXT = {
- 'C01': ('reference-model monitor on do_mapping output + logged warnings (independent placement enumerator); invariants on real shipped mappings',
+ 'C01': ('reference-model monitor on do_mapping output + logged warnings (independent placement enumerator; reference atoms, alternative mappings, insertion codes, particle-adding modification mappings); invariants on real shipped mappings',
          'Held on the executions produced: thousands of generated force-field pairs/molecules per run compared particle by particle with a reference mapper, plus charmm peptides through the shipped mappings. Exploration is the right level: the input space (mappings x molecules) is unbounded and the oracle is total on the generated domain.'),
  'C02': ('offline checker over the written ITP text (independent ITP reader) against the in-memory molecule',
          'Held on the executions produced: every generated molecule (arbitrary keys, atom ids, interaction types, guards, edit histories) is written by the real writer and read back by an independent reader.'),
@@ -37,9 +37,9 @@ TEXT = {
          'Held on the executions produced: generated particles with shared atoms, zero weights, missing coordinates, centre weights, 2-D/3-D.'),
  'C10': ('O(N^2) pairwise reference with an independent Bondi table; tag-based conservation and residue-integrity checks on MakeBonds output',
          'Held on the executions produced: fragments of real structures and point clouds with planted near-threshold pairs, all modes and fudge factors.'),
- 'C11': ('paired real CLI runs in separate processes (presentation applied in memory to read_system: atom order, hydrogen names, rigid motion, hash seed), pairwise comparison of the parsed output files; known finding classified by mechanism',
+ 'C11': ('paired real CLI runs in separate processes (presentation applied in memory to read_system or to the input file itself: atom order, hydrogen names, rigid motion, hash seed; PDB and GRO input), pairwise comparison of the parsed output files; three known findings classified by mechanism',
          'Held on the executions produced: a sparse sample of (structure, options, presentation, hash seed); cannot be enumerated, each pair costs a full pipeline run.'),
- 'C12': ('shadow-model monitor compared with every molecule of a pool after every operation of a random edit history; merge post-condition checked on observed before/after states',
+ 'C12': ('shadow-model monitor (atoms, bonds, interactions, citation keys) compared with every molecule of a pool after every operation of a random edit history; merge post-condition checked on observed before/after states',
          'Held on the executions produced: tens of thousands of operations per run, hostile orders emphasised.'),
  'C13': ('loaded objects compared with the abstract description the text was rendered from (every documented section in blocks, links and modifications); fault injection must raise; known finding classified by mechanism',
          'Held on the executions produced: generated .ff/.itp/.map files with equivalent spellings varied, and one injected fault per faulty file.'),
@@ -49,7 +49,7 @@ TEXT = {
          'Held on the executions produced: generated molecules with irregular selections, domains, near-threshold pairs.'),
  'C16': ('round trip through the real writers and readers compared field by field with format tolerances',
          'Held on the executions produced: systems up to 100 005 atoms crossing every field-width boundary.'),
- 'C17': ('per-residue reference assignment on node attributes after AnnotateResidues (fresh and reused processor objects); rule-table oracle for DSSP translation (exhaustive to length 4/6)',
+ 'C17': ('per-residue reference assignment on node attributes after AnnotateResidues (fresh and reused processor objects, residue identities edited in place between rounds); rule-table oracle for DSSP translation (exhaustive to length 4/6); AnnotateDSSP through the real mdtraj reader with only mdtraj.compute_dssp replaced by a residue-labelling stub',
          'Held on the executions produced; DSSP strings are enumerated exhaustively up to length 4 (quick) / 6 (thorough).'),
  'C18': ('set-based reference for Go sites and contacts on the objects after GoPipeline.run_system',
          'Held on the executions produced: generated multi-chain systems with cross-links and contact maps straddling every filter.'),
